@@ -164,13 +164,27 @@ impl IndexHunkIter {
 
     pub async fn next(&mut self) -> Option<Vec<IndexEntry>> {
         loop {
+            match self.try_next().await? {
+                Ok(entries) => return Some(entries),
+                Err(_err) => continue,
+            }
+        }
+    }
+
+    /// Like [IndexHunkIter::next], but a hunk that can't be read or decoded is
+    /// returned as an error rather than silently skipped, so that the caller can
+    /// report it.
+    pub async fn try_next(&mut self) -> Option<Result<Vec<IndexEntry>>> {
+        loop {
             let hunk_number = self.hunks.next()?;
             let entries = match self.index.read_hunk(hunk_number).await {
-                Ok(None) => return None,
-                Ok(Some(entries)) => entries,
-                Err(_err) => {
-                    continue;
+                Ok(None) => {
+                    return Some(Err(Error::InvalidMetadata {
+                        details: format!("Index hunk {hunk_number} is listed but missing"),
+                    }));
                 }
+                Ok(Some(entries)) => entries,
+                Err(err) => return Some(Err(err)),
             };
             if let Some(ref after) = self.after {
                 if let Some(last) = entries.last() {
@@ -181,17 +195,17 @@ impl IndexHunkIter {
                 if let Some(first) = entries.first() {
                     if first.apath > *after {
                         self.after = None; // don't need to look again
-                        return Some(entries);
+                        return Some(Ok(entries));
                     }
                 }
                 let idx = match entries.binary_search_by_key(&after, |entry| &entry.apath) {
                     Ok(idx) => idx + 1, // after the point it was found
                     Err(idx) => idx,    // from the point it would have been
                 };
-                return Some(Vec::from(&entries[idx..]));
+                return Some(Ok(Vec::from(&entries[idx..])));
             }
             if !entries.is_empty() {
-                return Some(entries);
+                return Some(Ok(entries));
             }
         }
     }
